@@ -23,7 +23,7 @@ vars == <<tid, l, m, s, conf>>
 Mon == INSTANCE RetryMon
 
 Cfg(i) == LET j == Traces[i].cfg IN
-          [j EXCEPT !.strat = ToSet(j.strat), !.legacy = ToSet(j.legacy)]
+          [j EXCEPT !.strat = ToSet(j.strat), !.legacy = ToSet(j.legacy), !.adaptive = ToSet(j.adaptive)]
 
 Cur == Traces[tid].ev[l]
 Is(kind) == l <= Len(Traces[tid].ev) /\ Cur.e = kind
